@@ -313,7 +313,7 @@ class Resolver:
 
     def __call__(self, host):
         self.calls += 1
-        r = self.table.get(host, "fail")
+        r = self.table.get(host.lower(), "fail")         # name resolution is case-insensitive
         if r == "fail":
             raise socket.gaierror(-2, "Name or service not known")
         if r == "unicode":
@@ -326,16 +326,20 @@ TF.gethostbyname = RESOLVER
 
 
 def new_filter(allow, block):
-    env = {"LUNAR_ALLOW_LIST": ",".join(allow) if allow else None, "LUNAR_BLOCK_LIST": ",".join(block) if block else None}
+    """allow / block: the list items as typed (items of the spec: {"raw": ...}); the variable is the items joined by a comma,
+    unset when that is the empty string"""
+    a, b = ",".join(x["raw"] for x in allow), ",".join(x["raw"] for x in block)
+    env = {"LUNAR_ALLOW_LIST": a if a else None, "LUNAR_BLOCK_LIST": b if b else None}
     ns = build(env)
     return _ev(_find_call("TrafficFilter"), ns)
 
 
 def cmd_filter(path, out_path):
-    """spec: {"hosts":[{"h":host string,"kind","ip":[a,b,c,d]|[],"v6","rsv"}...], "headers":[...], "configs":[{"allow":[..],"block":[..]}],
+    """spec: {"hosts":[{"h":host string,"hlow","hcanon","kind","ip":[a,b,c,d]|[],"v6","rsv"}...], "headers":[...],
+    "configs":[{"allow":[{"raw","low","canon"}..],"block":[..]}],
     "rounds":n}.  The resolver table is rendered from the host objects (names: dotted quad of `ip`, or the failure mode)."""
     spec = json.load(open(path))
-    RESOLVER.table = {h["h"]: (".".join(str(o) for o in h["ip"]) if h["rsv"] == "ok" else h["rsv"])
+    RESOLVER.table = {h["h"].lower(): (".".join(str(o) for o in h["ip"]) if h["rsv"] == "ok" else h["rsv"])
                       for h in spec["hosts"] if h["kind"] in ("name", "junk")}
     n = 0
     with open(out_path, "w") as f:
@@ -348,7 +352,8 @@ def cmd_filter(path, out_path):
                     for header in spec["headers"]:
                         headers = None if header == "absent" else ({} if header == "empty" else
                                                                    {"x-lunar-allow": header, "accept": "*/*"})
-                        rec = {"ev": "case", "allow": allow, "block": block, "host": h["h"], "kind": h["kind"], "ip": h["ip"],
+                        rec = {"ev": "case", "allow": allow, "block": block, "host": h["h"], "hlow": h["hlow"], "hcanon": h["hcanon"],
+                               "kind": h["kind"], "ip": h["ip"],
                                "v6": h["v6"], "rsv": h["rsv"], "header": header, "round": rnd}
                         try:
                             r = tf.is_allowed(h["h"], headers)
